@@ -1291,6 +1291,44 @@ func callSiteInvariant(P *Program, fn *ssa.Function, p *ssa.Parameter) bool {
 
 // constStringSlice: a is a slice literal of string constants.
 func constStringSlice(a ssa.Value) ([]string, bool) {
+	// a package-level list: `var kinds = []string{…}`, assigned once by the
+	// initialiser and never written through
+	if ld, isLd := a.(*ssa.UnOp); isLd && ld.Op == token.MUL {
+		if g, isG := ld.X.(*ssa.Global); isG && g.Pkg != nil {
+			var lit ssa.Value
+			n, written := 0, false
+			for _, m := range g.Pkg.Members {
+				f, isF := m.(*ssa.Function)
+				if !isF {
+					continue
+				}
+				for _, ff := range append([]*ssa.Function{f}, f.AnonFuncs...) {
+					eachInstr(ff, func(_ *ssa.BasicBlock, _ int, in ssa.Instruction) {
+						st, isSt := in.(*ssa.Store)
+						if !isSt {
+							return
+						}
+						if st.Addr == ssa.Value(g) {
+							n++
+							lit = st.Val
+							if ff.Name() != "init" {
+								written = true
+							}
+						}
+						if ia, isIA := st.Addr.(*ssa.IndexAddr); isIA {
+							if l2, ok := ia.X.(*ssa.UnOp); ok && l2.Op == token.MUL && l2.X == ssa.Value(g) {
+								written = true
+							}
+						}
+					})
+				}
+			}
+			if n == 1 && !written && lit != nil {
+				return constStringSlice(lit)
+			}
+			return nil, false
+		}
+	}
 	sl, ok := a.(*ssa.Slice)
 	if !ok {
 		return nil, false
